@@ -315,3 +315,44 @@ impl Inv {
         InvResult { run, dot: if self.dot { std::fs::read(&dotp).ok() } else { None }, parsetree: if self.parsetree { std::fs::read(&ptp).ok() } else { None } }
     }
 }
+
+/// What a printed table says: for every total assignment of the header columns, how many
+/// rows cover it with result True / False.
+pub struct TableSem {
+    pub k: usize,
+    pub true_cover: Vec<u32>,
+    pub false_cover: Vec<u32>,
+}
+
+pub fn table_sem(t: &Table) -> TableSem {
+    let k = t.header.len();
+    let mut tc = vec![0u32; 1 << k];
+    let mut fc = vec![0u32; 1 << k];
+    for (cells, res) in &t.rows {
+        for a in row_assignments(cells) {
+            if *res {
+                tc[a] += 1;
+            } else {
+                fc[a] += 1;
+            }
+        }
+    }
+    TableSem { k, true_cover: tc, false_cover: fc }
+}
+
+/// project a reference truth table over `names` onto the header columns (the other names
+/// are not free, the value does not depend on them): value per header assignment
+pub fn project_ref(want: u64, names: &[String], header: &[String]) -> Result<Vec<bool>, String> {
+    let cols: Vec<usize> = header.iter().map(|h| names.iter().position(|n| n == h).ok_or_else(|| format!("table column '{h}' is not a variable of the formula"))).collect::<Result<_, _>>()?;
+    let mut out = vec![];
+    for a in 0..(1usize << header.len()) {
+        let mut full = 0usize;
+        for (ci, c) in cols.iter().enumerate() {
+            if (a >> ci) & 1 == 1 {
+                full |= 1 << c;
+            }
+        }
+        out.push((want >> full) & 1 == 1);
+    }
+    Ok(out)
+}
